@@ -162,7 +162,17 @@ impl<'a> IrEmitter<'a> {
         let r = plan.rhs_conv.apply(r_raw);
 
         match plan.emit {
-            BinOpEmitKind::StdlibCall { path } => Ok(quote! { #path(#l, #r) }),
+            BinOpEmitKind::StdlibCall { path } => {
+                // The string comparison helpers take anything string-like: lend an owned string (a variable, a
+                // field) instead of moving it into the call, so that it can be used again afterwards.
+                let is_cmp = matches!(op, BinOp::Eq | BinOp::Ne | BinOp::Lt | BinOp::Le | BinOp::Gt | BinOp::Ge);
+                let lend = |e: &TypedExpr| {
+                    is_cmp && matches!(e.ty, IrType::String) && !matches!(e.kind, IrExprKind::String(_))
+                };
+                let l = if lend(left) { quote! { &#l } } else { l };
+                let r = if lend(right) { quote! { &#r } } else { r };
+                Ok(quote! { #path(#l, #r) })
+            }
             BinOpEmitKind::Pow { result_is_int } => {
                 if result_is_int {
                     // A bare integer literal has no definite type for a method call (`2.pow(..)` is ambiguous).
